@@ -115,12 +115,12 @@ def ref_links(site):
             out += [["/" + "/".join(p) + h, d] for h, d in ref_links(c)]
     return out
 def rfc6690_match(link, k, v):
-    """RFC 6690 section 4.1: exact or prefix ('*') match on href or on the named attribute; rt/if/rel/ct are space separated
-    lists; a missing attribute never matches (not even '*')."""
+    """RFC 6690 section 4.1: exact or prefix ('*') match on href or on the named attribute (names case-insensitive); rt/if/rel/ct are
+    space separated lists; a missing attribute or one without value never matches (not even '*')."""
     prefix = v.endswith("*"); pat = v[:-1] if prefix else v
     if k == "href": vals = [link[0]]
     else:
-        vals = [x for kk, x in link[1] if kk == k and x is not None]
+        vals = [x for kk, x in link[1] if kk.lower() == k.lower() and x is not None]
         if k in ("rt", "if", "rel", "ct"): vals = [t for x in vals for t in x.split(" ")]
     return any((x.startswith(pat) if prefix else x == pat) for x in vals)
 
@@ -139,11 +139,11 @@ class C17(fw.Property):
                   "from resource.py on every run, and over a hand-written model of nested sites, render dispatch, get_resources_as_linkheader and the WKCResource filter: "
                   "routing = exact resource, else nested site at the longest non-empty proper prefix with the remaining components, else 4.04, for every tree and path; the "
                   "handler's message carries the original path at every depth; add/remove are effective at once and frame everything else; the listing is exactly the "
-                  "non-hidden resources with full hrefs; single filter queries on href / rt / if / ct / multi-valued attributes return exactly the RFC 6690 subset under stated "
-                  "side conditions (the four filter defects found are modelled and carried as refuted witnesses / known findings).")
+                  "non-hidden resources with full hrefs; a single filter query returns exactly the RFC 6690 subset, unconditionally (the four filter defects this check found "
+                  "were fixed in /repo commit f691489; their oracle signatures stay armed).")
     level_note = ("Trusted: Coq kernel + vm_compute; the custom translator translate/jobs/c17.py + Model/C17Base.v prelude (validated by the flat_site stream); the hand model "
                   "Model/C17.v (validated by site_history / wkc_filter streams). Not modelled: several filter queries at once (O1), aliasing of one Site object at two places, "
-                  "dunder / non-ASCII attribute names in filter queries, Accept other than link-format, multicast no-response, observation/blockwise paths through the site.")
+                  "non-ASCII attribute names in filter queries (str.lower), Accept other than link-format, multicast no-response, observation/blockwise paths through the site.")
     rule = ("streams: site_history = random nested registration trees (shared prefixes, empty components, root resources, 3 levels, resources shadowing sub-sites, opaque PathCapable "
             "children, hidden resources, WKC resources) built by add/remove op sequences on real resource.Site objects, interleaved with GET requests through Site.render and "
             "Site.render_to_pipe (paths derived from / near registered ones, Uri-Path-Abbrev), list ops and /.well-known/core with zero or one filter; wkc_filter = a populated "
@@ -589,18 +589,16 @@ class C17(fw.Property):
             return ("C17:payload-not-link-format", "%s: payload %r is not the RFC 6690 serialisation of %r" % (where, r["payload"][:200], got))
         if kv is not None:
             k, v = kv
-            caseful = k != k.lower() or any(kk != kk.lower() for _, at in expected for kk, _ in at)
-            valueless = any(kk == k and x is None for _, at in expected for kk, x in at)
+            unjudged = k != k.lower() and k.lower() in ("rt", "if", "rel", "ct")      # upper-case query name for a list attribute: RFC unclear
             want = [l for l in expected if rfc6690_match(l, k, v)]
             key = lambda ls: sorted(fw.jdump(l) for l in ls)
             if key(got) != key(want):
                 if any(fw.jdump(l) not in key(expected) for l in got): return ("C17:filter-invents-link", "%s: %r not among the registered links" % (where, got))
                 if k in PY_ATTRS or k.startswith("__"): return ("C17:filter-crash-python-attribute-name", "%s: filter name %r is a Python attribute of Link" % (where, k))
-                if caseful: return None                                                 # attribute names differing in case only: RFC unclear, not judged
+                if unjudged: return None
                 if k in SINGLE_VALUED: return ("C17:filter-single-valued-attr-by-character", "%s: filter %r on single-valued attribute compares characters: got %r want %r" % (where, query, [l[0] for l in got], [l[0] for l in want]))
                 pat = v[:-1] if v.endswith("*") else v
                 if k in ("rt", "if", "ct") and pat == "": return ("C17:filter-empty-pattern-matches-missing-attribute", "%s: filter %r selects links that lack the attribute: got %r want %r" % (where, query, [l[0] for l in got], [l[0] for l in want]))
-                if valueless: return None                                              # comparing against an attribute without value: RFC unclear, not judged
                 return ("C17:filter-wrong-subset", "%s: filter %r: got %r want %r" % (where, query, [l[0] for l in got], [l[0] for l in want]))
             return None
         key = lambda ls: sorted(fw.jdump(l) for l in ls)
